@@ -114,7 +114,7 @@ func (g *simpleGen) next() *Call {
 			c.SetSize = true
 			c.Size = []int{0, 1, 100, 2000, B - 1, B, B + 1, 2 * B, 100000}[g.r.Intn(9)]
 			if g.r.Intn(20) == 0 && !g.cfg.Avoid["simple-huge-setattr"] {
-				c.Size, c.SizeSat, c.RawSize = HUGE, true, []uint64{1 << 40, 1<<64 - 1, 1 << 33}[g.r.Intn(3)]
+				c.Size, c.SizeSat, c.RawSize = HUGE, true, []uint64{1 << 63, 1<<64 - 1, 1<<64 - 4097}[g.r.Intn(3)] // sizes Go refuses to allocate (a panic, not an out-of-memory kill)
 			}
 		}
 	case p < 85:
